@@ -266,6 +266,11 @@ func (e *enc) specX(env *specEnv, x SExpr) (tval, error) {
 		}
 		return e.specField(env, v, n.Name)
 	case *SQuant:
+		if e.finder {
+			if t, ok, err := e.expandQuant(env, n); ok {
+				return t, err
+			}
+		}
 		env2 := env.clone()
 		var binds []string
 		var guards []string
@@ -804,4 +809,45 @@ func (e *enc) translateAxioms() {
 		}
 		e.axioms = append(e.axioms, specAxiom{name: ax.Name, text: t})
 	}
+}
+
+// expandQuant (finder mode only): a quantifier over ints becomes a finite conjunction / disjunction over a small range.
+// This is a heuristic used to obtain candidate inputs; every candidate is confirmed by running the real code.
+func (e *enc) expandQuant(env *specEnv, n *SQuant) (tval, bool, error) {
+	for _, v := range n.Vars {
+		if v.Ty != nil && !(v.Ty.Kind == "name" && v.Ty.Name == "int") {
+			return tval{}, false, nil
+		}
+	}
+	if len(n.Vars) > 2 {
+		return tval{}, false, nil
+	}
+	var parts []string
+	var rec func(i int, env2 *specEnv) error
+	rec = func(i int, env2 *specEnv) error {
+		if i == len(n.Vars) {
+			b, err := e.specBool(env2, n.Body)
+			if err != nil {
+				return err
+			}
+			parts = append(parts, b)
+			return nil
+		}
+		for k := -1; k <= replayMaxElems; k++ {
+			env3 := env2.clone()
+			env3.vars[n.Vars[i].Name] = tval{smtInt(int64(k)), intTy, "Int"}
+			if err := rec(i+1, env3); err != nil {
+				return err
+			}
+		}
+		return nil
+	}
+	if err := rec(0, env); err != nil {
+		return tval{}, true, err
+	}
+	op := "and"
+	if !n.Forall {
+		op = "or"
+	}
+	return tval{"(" + op + " " + strings.Join(parts, " ") + ")", boolTy, "Bool"}, true, nil
 }
